@@ -336,7 +336,12 @@ def run_runmd(w):
     saved = tis.select_shoot, tis.log_mdlogs, tis.calc_cv_vector
     tis.select_shoot = lambda picked, start_cond=("L",): (w["status"] == "ACC", trials, w["status"])
     tis.log_mdlogs = lambda inp: None
-    tis.calc_cv_vector = lambda path, *a, **k: ("cv", id(path))
+    cv_args = []
+
+    def _cv(path, interfaces, moves, lambda_minus_one=False, cap=None, minus=False):
+        cv_args.append((path, interfaces, moves, lambda_minus_one, cap, minus))
+        return ("cv", id(path))
+    tis.calc_cv_vector = _cv
     bad = []
     try:
         out = tis.run_md(md)
@@ -356,6 +361,14 @@ def run_runmd(w):
                 bad.append(f"ens {k}: old path replaced although the status is {w['status']}")
             if (frames_snapshot(olds[k]), olds[k].weights) != before[k]:
                 bad.append(f"ens {k}: old path changed by a rejected move")
+    if w["status"] == "ACC":
+        for k, t, c in zip(keys, trials, cv_args):
+            if not (c[0] is t and c[1] is md["interfaces"] and c[2] is md["mc_moves"] and c[3] is False and c[4] is md["cap"] and c[5] is (k < 0)):
+                bad.append(f"ens {k}: weight vector not installed / computed with the run's interfaces, moves, cap, the ensemble's lambda_-1 and minus={k < 0}")
+        if len(cv_args) != len(keys):
+            bad.append("not exactly one weight vector per trial")
+    elif cv_args:
+        bad.append("weight vector computed for a rejected move (path not installed)")
     if any(len(md[x]) != len(keys) for x in ("moves", "trial_len", "trial_op", "generated")):
         bad.append("not exactly one record per trial")
     return bad, {"status": w["status"]}
@@ -388,7 +401,7 @@ _CLAUSE_KEYWORDS = [
     ("lambda_minus_one", ["lambda_-1"]),
     ("no_zero_division", ["ZeroDivisionError"]),
     ("path_replaced_iff_ACC", ["replaced", "not installed"]),
-    ("weight_vector", ["not installed"]),
+    ("weight_vector", ["not installed", "weight vector"]),
     ("keeps_frames_and_weights", ["old path changed"]),
     ("records_the_moves_status", ["status not recorded"]),
     ("one_record_per_trial", ["one record per trial"]),
